@@ -398,10 +398,22 @@ class Ctx:
         return "new"
 
     def disagree(self, case, impl, model, what=""):
-        self.disagreements.append({"case": case, "impl": impl, "model": model, "what": what})
+        self.n_disagreements = getattr(self, "n_disagreements", 0) + 1
+        if len(self.disagreements) < 200:          # keep the first ones, count them all
+            self.disagreements.append({"case": case, "impl": impl, "model": model, "what": what})
 
     def driver(self, lines, name=None):
-        return driver(self.prop, lines, name)
+        """Answers of the model driver.  When the proof stage is already broken because the *model itself*
+        no longer builds (a regenerated definition changed), the driver cannot run: every line is then
+        answered `model-unavailable`, which shows up as disagreements (never as a pass) and sends the run
+        to the failing-input search instead of ending it as an infrastructure error."""
+        try:
+            return driver(self.prop, lines, name)
+        except InfraError:
+            if self.proof is not None and not self.proof.get("ok"):
+                log("model driver unavailable (the model no longer builds); continuing with the oracle only")
+                return ["model-unavailable"] * len(lines)
+            raise
 
     def prove(self, translators=()):
         self.proof = prove(self.prop, self.scratch, translators, leanchecker=not self.quick)
@@ -486,8 +498,8 @@ def finish(ctx, mod):
         "distinct_nontrivial": len(ctx._distinct),
         "rule": getattr(mod, "RULE", ""),
         "samples": jsonable(ctx.samples) or ["(no correspondence cases in this run)"],
-        "traces_validated_against_impl": ctx.evaluations - len(ctx.disagreements),
-        "disagreements": len(ctx.disagreements),
+        "traces_validated_against_impl": max(0, ctx.evaluations - getattr(ctx, "n_disagreements", 0)),
+        "disagreements": getattr(ctx, "n_disagreements", 0),
         "distribution": ctx.distribution,
         "known_findings_hit": sorted(ctx.known_hits),
         "build_s": proof.get("build_s"),
